@@ -159,7 +159,30 @@ def check_private_copy(repo, rep, rule, ce, why):
     interpreted run on a synthetic table that has every mutable level of the real one)."""
     n = 0
     for cls_name, modname, gd, ret, master in check_registry(repo, rep, rule, why):
-        need = mutable_depth(ce.lookup(modname, cls_name + '.MASTER_DB'))
+        real = ce.lookup(modname, cls_name + '.MASTER_DB')
+        need = mutable_depth(real)
+        # no two places of MASTER_DB hold the same list / dict object (a row or a note list written once as a class constant and referenced from several
+        # entries): copy.deepcopy() keeps such sharing inside every per-thread copy, so a note appended for one algorithm shows up on the others.  The constant
+        # evaluator resolves a name to one object, so sharing in the source is sharing in the evaluated table.
+        seen_, dup_ = {}, []
+
+        def walk_(v, path):
+            if isinstance(v, (list, dict, set)):
+                if id(v) in seen_:
+                    dup_.append((seen_[id(v)], path))
+                    return
+                seen_[id(v)] = path
+                if isinstance(v, dict):
+                    for k_, x_ in v.items():
+                        walk_(x_, '%s[%r]' % (path, k_))
+                elif isinstance(v, list):
+                    for i_, x_ in enumerate(v):
+                        walk_(x_, '%s[%d]' % (path, i_))
+        walk_(real, 'MASTER_DB')
+        rep.check(rule, '%s.MASTER_DB: every row and every note list is an object of its own (%d containers)' % (cls_name, len(seen_)), not dup_, gd,
+                  '%s.MASTER_DB holds one list object in several places (%s and %s%s): the per-thread copy keeps that sharing, so a note written for one algorithm during a scan (Terrapin, key size, modulus size) also appears on the other, which the peer may not even offer -- %s' % (
+                      cls_name, dup_[0][0] if dup_ else '', dup_[0][1] if dup_ else '', ', %d more' % (len(dup_) - 1) if len(dup_) > 1 else '', why),
+                  func='%s:%s' % (modname, cls_name), stmt='%s.MASTER_DB aliased containers' % cls_name)
         if need > mutable_depth(master):
             raise AnalysisError('%s.MASTER_DB has %d mutable container levels, the synthetic table of the model only %d' % (cls_name, need, mutable_depth(master)))
         bad = shared_parts(ret, master) if isinstance(ret, dict) else ['<no table returned>']
